@@ -109,3 +109,60 @@ Proof.
   apply (room_sets_none_housed rs nd a E).
 Qed.
 End RG.
+
+(* ---- the panic sites of the room stage are 6..10 (so the room gate never reports the matching routine's site 4) ---- *)
+Section Sites.
+Variables (courses : list course) (parts : list participant).
+Variable esize : nat -> nat -> nat.
+Variable shrinkf : nat -> nat -> nat.
+
+Lemma create_set_site nd : forall cl ts ar sh ca s, create_set courses esize shrinkf nd cl ts ar sh ca = Panic s -> s = 9.
+Proof.
+  induction cl as [|c t IH]; intros ts ar sh ca s H; simpl in H; [discriminate|].
+  repeat (match type of H with context [if ?b then _ else _] => destruct b end; try discriminate; try (inversion H; reflexivity); try (eapply IH; exact H)).
+Qed.
+Lemma create_set_noov nd : forall cl ts ar sh ca, create_set courses esize shrinkf nd cl ts ar sh ca <> HOverflow.
+Proof.
+  induction cl as [|c t IH]; intros ts ar sh ca H; simpl in H; [discriminate|].
+  repeat (match type of H with context [if ?b then _ else _] => destruct b end; try discriminate; try (eapply IH; exact H)).
+Qed.
+Lemma build_sets_site nd : forall sels ts al acc s, build_sets courses esize shrinkf nd sels ts al acc = Panic s -> s = 8 \/ s = 9.
+Proof.
+  induction sels as [|sel t IH]; intros ts al acc s H; simpl in H; [discriminate|].
+  destruct (create_set courses esize shrinkf nd sel ts true [] []) as [[[sh ca]|]| |] eqn:Ec.
+  - destruct (sh ++ fst al); [destruct (ca ++ snd al); [inversion H; auto|eapply IH; exact H]|eapply IH; exact H].
+  - eapply IH; exact H.
+  - inversion H; subst. right. eapply create_set_site; exact Ec.
+  - discriminate.
+Qed.
+Lemma build_sets_noov nd : forall sels ts al acc, build_sets courses esize shrinkf nd sels ts al acc <> HOverflow.
+Proof.
+  induction sels as [|sel t IH]; intros ts al acc H; simpl in H; [discriminate|].
+  destruct (create_set courses esize shrinkf nd sel ts true [] []) as [[[sh ca]|]| |] eqn:Ec.
+  - destruct (sh ++ fst al); [destruct (ca ++ snd al); [discriminate|eapply IH; exact H]|eapply IH; exact H].
+  - eapply IH; exact H.
+  - discriminate.
+  - eapply create_set_noov; exact Ec.
+Qed.
+Theorem room_sets_site rs nd a s : room_sets courses esize shrinkf rs nd a = Panic s -> 6 <= s <= 10.
+Proof.
+  unfold room_sets. destruct (find _ (seq 0 _)) as [j|]; [|discriminate].
+  destruct (find_index _ _) as [sm|]; [|intros H; inversion H; lia].
+  destruct (_ <? sm); [intros H; inversion H; lia|].
+  destruct (if _ <? MIN_K_nat then _ else _) as [lower k].
+  match goal with |- context [create_set ?c ?e ?sf ?n ?cl ?ts false [] []] => destruct (create_set c e sf n cl ts false [] []) as [[al|]| |] eqn:Eal end.
+  - match goal with |- context [build_sets ?c ?e ?sf ?n ?sels ?ts ?al' []] => destruct (build_sets c e sf n sels ts al' []) as [sets| |] eqn:Eb end.
+    + discriminate.
+    + intros H. inversion H; subst. destruct (build_sets_site _ _ _ _ _ _ Eb); lia.
+    + discriminate.
+  - intros H. inversion H; lia.
+  - intros H. inversion H; subst. pose proof (create_set_site _ _ _ _ _ _ _ Eal). lia.
+  - discriminate.
+Qed.
+Theorem room_gate_site rooms nd a s : room_gate courses esize shrinkf rooms nd a = Panic s -> 6 <= s <= 10.
+Proof.
+  unfold room_gate. destruct rooms as [rs|]; [|discriminate].
+  destruct (room_sets courses esize shrinkf (prep_rooms courses rs) nd a) as [[sets|]| |] eqn:E; try discriminate.
+  intros H. inversion H; subst. eapply room_sets_site; exact E.
+Qed.
+End Sites.
